@@ -27,3 +27,26 @@ Theorem c06_fetcher_yields_exactly_the_matching_entities :
       forall k, In k (map fst its) <-> exists ai a row vals, arch_at w ai = Some a /\ amatch a q = true /\ nget (a_rows a) row = Some (k, vals).
 Proof. exact handler_view_exact. Qed.
 Print Assumptions c06_fetcher_yields_exactly_the_matching_entities.
+
+(* ---------- the cursor of fetch::Iter (src/fetch.rs:630-705, coq/FetchIter.v) ---------- *)
+Require Import EV.FetchIter.
+(* over a cache of non-empty archetypes (the cache invariant, Fetch.v): a fresh iterator yields every
+   (cache position, row) exactly once, in order, without reaching one of its two unchecked steps; its len() is the
+   total; afterwards next() keeps returning None *)
+Theorem c06_iterator_yields_each_item_exactly_once :
+  forall counts : list N, Forall (fun c => (0 < c)%N) counts ->
+    exists it', it_drain (S (length (all_items counts))) counts (it_new counts) = IVal (all_items counts, it') /\
+                it_remaining counts (it_new counts) = N.of_nat (length (all_items counts)) /\
+                it_next counts it' = IVal (None, it') /\ NoDup (all_items counts).
+Proof. exact it_enumerates. Qed.
+Print Assumptions c06_iterator_yields_each_item_exactly_once.
+
+(* "the iterator's reported length always equals the number of items still to come": after ANY number k of calls to
+   next(), what is left is the tail of the full enumeration and len() is its length *)
+Theorem c06_reported_length_is_exact_at_every_point :
+  forall counts : list N, Forall (fun c => (0 < c)%N) counts -> forall k : nat,
+    exists it', it_advance k counts (it_new counts) = IVal it' /\ ItInv counts it' /\
+                rest counts it' = skipn k (all_items counts) /\
+                it_remaining counts it' = N.of_nat (length (skipn k (all_items counts))).
+Proof. exact it_len_after_any_prefix. Qed.
+Print Assumptions c06_reported_length_is_exact_at_every_point.
